@@ -430,7 +430,11 @@ class Sym:
         raise Inconclusive("float() of a symbolic value (C boundary)")
 
     def __round__(self, n=None):
-        raise Inconclusive("round() of a symbolic value")
+        if n is not None:
+            raise Inconclusive("round(x, n) of a symbolic value")
+        if self.is_int:
+            return self
+        return cur().round_half_even(self)
 
     # ---- numpy protocol (object arrays dispatch here)
     def sqrt(self):
@@ -1148,6 +1152,18 @@ class Ctx:
         self.ex._sqrt_cache[key] = (q, num, den)
         self._add(q * den == num, defines=q.decl().name())
         return Sym(q)
+
+    def round_half_even(self, x):
+        """Python's round(x): the nearest integer, ties to the even one (fresh
+        integer k defined by |x-k| <= 1/2 and the tie rule)."""
+        k = z3.Int(self._name("round"))
+        xz = _real(x.z)
+        kr = z3.ToReal(k)
+        half = z3.RealVal("1/2")
+        self._add(kr - half <= xz, xz <= kr + half,
+                  z3.Implies(xz == kr + half, k % 2 == 0), z3.Implies(xz == kr - half, k % 2 == 0),
+                  defines=k.decl().name())
+        return Sym(k)
 
     def uf(self, name, *sorts):
         f = self.ufs.get(name)
